@@ -97,7 +97,7 @@ impl<I: OffsetSizeTrait> OffsetBuffer<I> {
 
         for key in keys {
             let index = key.as_usize();
-            if index + 1 >= dict_offsets.len() {
+            if index >= dict_offsets.len().saturating_sub(1) {
                 return Err(general_err!(
                     "dictionary key beyond bounds of dictionary: 0..{}",
                     dict_offsets.len().saturating_sub(1)
